@@ -35,7 +35,7 @@ GROUP = "simd"
 REQ = "From RV Require Import Prelude.\nFrom Simd Require Import SimdModel.\nOpen Scope Z_scope."
 THEOREMS = ["C18_simd_map_spec", "C18_simd_map_src_dst_spec", "C18_simd_map_general", "C18_reads_writes_in_bounds",
             "C18_tail_mask_exact", "C18_masked_tail_load", "C18_masked_tail_store", "C18_off_by_one_mask_faults",
-            "C18_simd_apply_spec", "C18_iter_chunks", "C18_iter_pad_spec", "C18_fold_spec",
+            "C18_simd_apply_spec", "C18_iter_chunks", "C18_iter_pad_spec", "C18_fold_spec", "C18_fold_n_spec", "C18_fold_n_model",
             "C18_lane_ops_in_range", "C18_wrap_is_reduction_mod_2n",
             "C18_mul_i8_via_i16", "C18_mul_u8_via_u16", "C18_shl_8_via_16", "C18_shr_8_via_16",
             "C18_gt_unsigned_via_signed", "C18_avx512_mask_loop", "C18_avx2_narrow_recipe",
@@ -66,6 +66,9 @@ def derive_concrete(cases):
         elif t.startswith("(CSliceSweep") and "(Some" in t:
             m = re.search(r"\(Some (\d+)%N\)", t)
             extra.append("slice %s %s %s %s %s %s %s" % (inp[1], inp[2], inp[3], inp[4], inp[5], m.group(1), inp[6]))
+        elif t.startswith("(CReduceSweep") and "(Some" in t:
+            m = re.search(r"\(Some (\d+)%N\)", t)
+            extra.append("reduce %s %s %s %s" % (inp[1], inp[2], m.group(1), inp[3]))
     return extra
 
 
